@@ -209,12 +209,17 @@ class LocalFileStore(Store):
         if isinstance(protocol, CodecProtocol):
             protocol.serialize_into(blob, GenericLocation(p))
         elif isinstance(protocol, FileCodecProtocol):
-            # This is the local file system, we can directly copy the file to its final destination
-            protocol.serialize_into(blob, PurePath(p))
+            # The file is written under a temporary name and then moved to its final destination:
+            # a reader (or a process restarted after a crash) never sees a partially written blob.
+            tmp_p = _temp_name(p)
+            protocol.serialize_into(blob, PurePath(tmp_p))
+            os.replace(tmp_p, p)
         else:
             raise DDSException(f"Wrong protocol type: {type(protocol)} {protocol}")
+        # The metadata is written last (also atomically): a blob is present when its metadata is.
         meta_p = os.path.join(self._root, "blobs", key + ".meta")
-        with open(meta_p, "wb") as f:
+        tmp_meta_p = _temp_name(meta_p)
+        with open(tmp_meta_p, "wb") as f:
             f.write(
                 json.dumps(
                     {
@@ -223,11 +228,14 @@ class LocalFileStore(Store):
                     }
                 ).encode("utf-8")
             )
+        os.replace(tmp_meta_p, meta_p)
         _logger.debug(f"Committed new blob in {key}")
 
     def has_blob(self, key: PyHash) -> bool:
+        # Both files are required: see fetch_blob and store_blob.
         p = os.path.join(self._root, "blobs", key)
-        return os.path.exists(p)
+        meta_p = os.path.join(self._root, "blobs", key + ".meta")
+        return os.path.exists(p) and os.path.exists(meta_p)
 
     def _data_location(self, path: DDSPath) -> "Tuple[str, str]":
         """
@@ -281,6 +289,11 @@ class LocalFileStore(Store):
 
     def codec_registry(self) -> CodecRegistry:
         return codec_registry()
+
+
+def _temp_name(p: str) -> str:
+    """A name next to p that no other process uses (leftovers of a killed process are overwritten)."""
+    return f"{p}.tmp-{os.getpid()}"
 
 
 def current_timestamp() -> int:
